@@ -136,7 +136,7 @@ partial def step (s : St) (line : String) : St × String :=
     let sel := fun series => (series.splitOn "|").head? == some meas && (key == "-" || tagPred series key op vals)
     (deleteRange s sel (-(2:Int)^70) ((2:Int)^70), "ok")
   | [op, meas, pred, tmin, tmax] =>
-    if op != "del" && op != "snapdel" && op != "delprobe" && op != "delmon" then (s, "bad-op") else
+    if op != "del" && op != "snapdel" && op != "delprobe" && op != "delmon" && op != "delheld" then (s, "bad-op") else
     -- open ends: beyond any int64 timestamp
     let lo := if tmin == "-inf" then some (-(2:Int)^70) else tmin.toInt?
     let hi := if tmax == "+inf" then some ((2:Int)^70) else tmax.toInt?
